@@ -476,8 +476,15 @@ func main() {
 			if o == old || o == newObs {
 				return true
 			}
-			if isWrite { // an in-flight write may be partially applied; everything else must be as before
-				return stripData(o) == stripData(old) || stripData(o) == stripData(newObs)
+			if isWrite {
+				// an in-flight write may be partially applied (Properties/C08Data.lean: c08_torn_live,
+				// c08_torn_snapshots): the metadata is as before or as after, every snapshot image is
+				// unchanged, every unit outside the blocks of the request reads as before, and every
+				// block of the request is entirely old or entirely as the completed write left it
+				if stripData(o) != stripData(old) && stripData(o) != stripData(newObs) {
+					return false
+				}
+				return tornOk(old, newObs, o, j.op)
 			}
 			return false
 		}
@@ -664,6 +671,50 @@ func modelExpect(pre, prep []string, op string) (string, bool) {
 		return "", false
 	}
 	return o[len(o)-2] + "\n" + o[len(o)-1], true
+}
+
+// tornOk: the data lines of an observation after process death during `w off len tag`
+func tornOk(old, done, got, op string) bool {
+	lines := func(o string) (vol []string, imgs []string) {
+		for i, l := range strings.Split(o, "\n") {
+			if i == 1 && strings.HasPrefix(l, "data ") {
+				vol = strings.Split(strings.TrimPrefix(l, "data "), ",")
+			}
+			if strings.HasPrefix(l, "img:") {
+				imgs = append(imgs, l)
+			}
+		}
+		return
+	}
+	vo, io := lines(old)
+	vd, _ := lines(done)
+	vg, ig := lines(got)
+	if strings.Join(io, "\n") != strings.Join(ig, "\n") {
+		return false // a snapshot image changed
+	}
+	if len(vo) == 0 || len(vo) != len(vg) || len(vd) != len(vg) {
+		return false
+	}
+	var off, n, tag int
+	fmt.Sscanf(op, "w %d %d %d", &off, &n, &tag)
+	const bs = 8
+	for b := 0; b*bs < len(vg); b++ {
+		lo, hi := b*bs, min((b+1)*bs, len(vg))
+		sameOld, sameNew := true, true
+		for u := lo; u < hi; u++ {
+			if vg[u] != vo[u] {
+				sameOld = false
+			}
+			if vg[u] != vd[u] {
+				sameNew = false
+			}
+		}
+		touched := n > 0 && b >= off/bs && b <= (off+n-1)/bs
+		if !sameOld && !(touched && sameNew) {
+			return false
+		}
+	}
+	return true
 }
 
 // stripData keeps the metadata line only without the revision counter (for in-flight writes)
